@@ -246,3 +246,100 @@ func nonNilOperands(v ssa.Value) []ssa.Value {
 	walk(v, 0)
 	return out
 }
+
+// resolveUp follows a value of fn back to the values of `root` it stands for: parameters are
+// replaced by the arguments of every static call / defer / go of fn in the module, captured
+// variables by what the creating function bound them to. Returns nil if some origin cannot be
+// followed (then the caller must treat the provenance as unknown).
+func resolveUp(p *Prog, root, fn *ssa.Function, v ssa.Value, depth int) []ssa.Value {
+	v = stripConv(v)
+	if fn == root {
+		return []ssa.Value{v}
+	}
+	if depth > 5 {
+		return nil
+	}
+	switch x := v.(type) {
+	case *ssa.FreeVar, *ssa.UnOp:
+		var fv *ssa.FreeVar
+		if f, ok := x.(*ssa.FreeVar); ok {
+			fv = f
+		} else if u, ok := x.(*ssa.UnOp); ok {
+			fv, _ = u.X.(*ssa.FreeVar)
+		}
+		if fv == nil || fn.Parent() == nil {
+			return nil
+		}
+		idx := -1
+		for i, y := range fn.FreeVars {
+			if y == fv {
+				idx = i
+			}
+		}
+		var out []ssa.Value
+		for _, b := range fn.Parent().Blocks {
+			for _, in := range b.Instrs {
+				if mc, ok := in.(*ssa.MakeClosure); ok && mc.Fn == ssa.Value(fn) && idx >= 0 {
+					bv := mc.Bindings[idx]
+					if al, ok := bv.(*ssa.Alloc); ok {
+						if cv := cellContent(al); cv != nil {
+							bv = cv
+						}
+					}
+					r := resolveUp(p, root, fn.Parent(), bv, depth+1)
+					if r == nil {
+						return nil
+					}
+					out = append(out, r...)
+				}
+			}
+		}
+		return out
+	case *ssa.Parameter:
+		pi := paramIndex(fn, x)
+		node := p.CallGraph().Nodes[fn]
+		if node == nil || pi < 0 {
+			return nil
+		}
+		var out []ssa.Value
+		for _, e := range node.In {
+			cc := e.Site.Common()
+			if cc.StaticCallee() != fn || pi >= len(cc.Args) {
+				continue
+			}
+			r := resolveUp(p, root, e.Caller.Func, cc.Args[pi], depth+1)
+			if r == nil {
+				return nil
+			}
+			out = append(out, r...)
+		}
+		return out
+	}
+	return nil
+}
+
+// reachableStatic: module functions reachable from root through static calls, defers, go statements and closures created on the way.
+func reachableStatic(p *Prog, root *ssa.Function) []*ssa.Function {
+	seen := map[*ssa.Function]bool{}
+	var out []*ssa.Function
+	var walk func(f *ssa.Function)
+	walk = func(f *ssa.Function) {
+		if f == nil || seen[f] || f.Blocks == nil || !p.InModule(f) {
+			return
+		}
+		seen[f] = true
+		out = append(out, f)
+		for _, b := range f.Blocks {
+			for _, in := range b.Instrs {
+				if c, ok := in.(ssa.CallInstruction); ok {
+					walk(c.Common().StaticCallee())
+				}
+				if mc, ok := in.(*ssa.MakeClosure); ok {
+					walk(mc.Fn.(*ssa.Function))
+				}
+			}
+		}
+	}
+	walk(root)
+	return out
+}
